@@ -55,6 +55,11 @@ pub struct Phase {
     /// clock step before the phase, milliseconds (may be negative)
     pub advance_ms: i64,
     pub tasks: Vec<Vec<Op>>,
+    /// SQLite arm, fault: the k-th statement the simulator releases in this phase (transaction
+    /// control excluded) fails with FAULT_CODES[c] instead of executing — disk full / I/O error /
+    /// busy, as the VFS would report it
+    #[serde(default)]
+    pub fail_stmt: Option<(u8, u8)>,
 }
 
 #[derive(Serialize, Deserialize, Clone, Debug, PartialEq)]
@@ -204,6 +209,11 @@ const RELAX_NAMES: [(u8, &str); 2] = [
 fn step(s: &MState, op: &Op, ret: &Ret, now: i64, relax: u8) -> Vec<MState> {
     let same = || vec![s.clone()];
     let none = Vec::new;
+    if let Ret::Other(_) = ret {
+        // a backend error (only tolerated after an injected statement failure, see `check_phase`):
+        // the operation must not have taken effect, not even in part
+        return same();
+    }
     match op {
         Op::Create { id, ttl_ms, val } => {
             if live(s, *id, now) {
@@ -416,6 +426,8 @@ struct Shared {
     seq: u64,
     events: Vec<Event>,
     log: EventLog,
+    /// statement failures injected in the current phase
+    faults_fired: u32,
 }
 
 fn op_str(op: &Op) -> String {
@@ -515,6 +527,8 @@ async fn run_phase_sqlite(store: Arc<SessionStore>, phase: &Phase, tape: &mut Ta
     }
     drop(done_tx);
     let mut remaining: Vec<usize> = phase.tasks.iter().map(|t| t.len()).collect();
+    // statements released so far in this phase that could have been failed (see `fail_stmt`)
+    let mut failable_seen: u32 = 0;
     // Operations are released in batches (at most one per task). Every SQL statement they issue
     // stops at the turnstile inside `sqlite3_step` (see gate.rs) until the simulator lets it go:
     // the simulator waits until the system is QUIESCENT — every operation in flight is either
@@ -617,8 +631,25 @@ async fn run_phase_sqlite(store: Arc<SessionStore>, phase: &Phase, tape: &mut Ta
                 // is not observable — so they are released together, one after the other: whatever
                 // the order, the same set of operations has advanced by the next decision.
                 let dup = waiting.iter().filter(|w| **w == waiting[k]).count();
-                for _ in 0..dup {
-                    crate::gate::grant_and_wait(&waiting[k]);
+                let mut fail = None;
+                if dup == 1 && crate::gate::can_fail(&waiting[k]) {
+                    if let Some((at, code)) = phase.fail_stmt {
+                        if failable_seen == at as u32 {
+                            let code = crate::gate::FAULT_CODES[code as usize % crate::gate::FAULT_CODES.len()];
+                            fail = Some(code);
+                            let mut s = sh.borrow_mut();
+                            s.faults_fired += 1;
+                            s.log.sched(format_args!("FAULT: this statement fails with SQLite error {code}"));
+                        }
+                    }
+                    failable_seen += 1;
+                }
+                if fail.is_some() {
+                    crate::gate::grant_and_wait_with(&waiting[k], fail);
+                } else {
+                    for _ in 0..dup {
+                        crate::gate::grant_and_wait(&waiting[k]);
+                    }
                 }
                 spins = 0;
                 stuck_since = None;
@@ -650,7 +681,7 @@ pub fn execute(script: &Script, tape: &mut Tape, keep_log: bool) -> RunOut {
     let t0 = seams::EPOCH_S * 1_000_000_000;
     seams::set_clock_ns(t0, 0);
     seams::reset_clock_reads();
-    let sh = Rc::new(RefCell::new(Shared { seq: 0, events: Vec::new(), log: EventLog::new(keep_log || std::env::var("VERIF_KEEP_LOG").is_ok()) }));
+    let sh = Rc::new(RefCell::new(Shared { seq: 0, events: Vec::new(), log: EventLog::new(keep_log || std::env::var("VERIF_KEEP_LOG").is_ok()), faults_fired: 0 }));
     let sqlite = script.backend == "sqlite";
     let mut counters: BTreeMap<String, u64> = BTreeMap::new();
     let mut violations: Vec<Violation> = Vec::new();
@@ -667,9 +698,19 @@ pub fn execute(script: &Script, tape: &mut Tape, keep_log: bool) -> RunOut {
     let mut check_phase = |pi: usize, phase: &Phase, evs: Vec<Event>, now: i64, possible: &mut BTreeSet<MState>, violations: &mut Vec<Violation>, counters: &mut BTreeMap<String, u64>, states: &mut Vec<String>| {
         let mut c = |k: &str| *counters.entry(k.to_string()).or_insert(0) += 1;
         history.push((now, evs.clone()));
+        let faults_fired = std::mem::take(&mut sh.borrow_mut().faults_fired);
+        if faults_fired > 0 {
+            c("fault_sqlite_statement_failed");
+        }
+        let mut others = 0u32;
         for e in &evs {
             if let Ret::Other(m) = &e.out {
-                violations.push(viol("no-spurious-error", format!("{} {} -> Other", script.backend, op_kind(&e.op)), format!("phase{pi}: {} failed with {m}", op_str(&e.op))));
+                others += 1;
+                if others > faults_fired {
+                    violations.push(viol("no-spurious-error", format!("{} {} -> Other", script.backend, op_kind(&e.op)), format!("phase{pi}: {} failed with {m}", op_str(&e.op))));
+                } else {
+                    c("op_failed_with_other_after_statement_fault");
+                }
             }
             if let Ret::Loaded(Some((None, _))) = &e.out {
                 violations.push(viol("load-returns-what-was-written", format!("{} load returns a state nobody wrote", script.backend), format!("phase{pi}: {} returned a state that is not byte-for-byte one of the states written", op_str(&e.op))));
@@ -852,6 +893,8 @@ pub fn execute(script: &Script, tape: &mut Tape, keep_log: bool) -> RunOut {
     }
     out.count(if sqlite { "runs_sqlite" } else { "runs_memory" }, 1);
     out.count("sqlite_statements_scheduled", crate::gate::GATED.swap(0, std::sync::atomic::Ordering::Relaxed));
+    out.count("sqlite_statements_failed", crate::gate::FAILED.swap(0, std::sync::atomic::Ordering::Relaxed));
+    out.count("sqlite_statement_failed_inside_transaction", crate::gate::FAILED_IN_TX.swap(0, std::sync::atomic::Ordering::Relaxed));
     out.nontrivial = script.phases.iter().map(|p| p.tasks.iter().map(|t| t.len()).sum::<usize>()).sum::<usize>() >= 2;
     out
 }
@@ -905,8 +948,8 @@ impl Sim for StoreSim {
                 "sqlite arm: all instants and TTLs are whole seconds, so the store's whole-second deadlines introduce no rounding ambiguity".into(),
                 "sqlx's worker threads are real OS threads; every SQL statement stops at a link-time turnstile in sqlite3_step and is released by the tape only when the system is quiescent, so statement-level interleavings are explored and replay exactly (verified by the double-run diff); only the first step of a statement is a scheduling point".into(),
             ],
-            fault_counters: vec!["fault_clock_jump_back".into()],
-            expected_probes: vec!["op_exactly_at_deadline".into(), "op_on_expired_record".into(), "runs_with_overlapping_operations".into(), "lock_contended".into(), "phase_with_several_possible_outcomes".into(), "runs_sqlite".into(), "runs_memory".into()],
+            fault_counters: vec!["fault_clock_jump_back".into(), "fault_sqlite_statement_failed".into()],
+            expected_probes: vec!["op_failed_with_other_after_statement_fault".into(), "sqlite_statement_failed_inside_transaction".into(), "op_exactly_at_deadline".into(), "op_on_expired_record".into(), "runs_with_overlapping_operations".into(), "lock_contended".into(), "phase_with_several_possible_outcomes".into(), "runs_sqlite".into(), "runs_memory".into()],
         }
     }
 
@@ -977,9 +1020,15 @@ impl Sim for StoreSim {
                 }
                 tasks.push(ops);
             }
-            phases.push(Phase { advance_ms, tasks });
+            phases.push(Phase { advance_ms, tasks, fail_stmt: None });
         }
         let _ = has_delete_expired;
+        // late draw (everything above is the same function of the seed as before): one SQLite run
+        // in three has a phase in which one statement fails (disk full / I/O error / busy)
+        if sqlite && rng.chance(1, 3) {
+            let pi = rng.usize(0, phases.len() - 1);
+            phases[pi].fail_stmt = Some((rng.below(6) as u8, rng.below(3) as u8));
+        }
         Script { backend: if sqlite { "sqlite".into() } else { "memory".into() }, phases }
     }
 
@@ -1033,7 +1082,7 @@ impl Sim for StoreSim {
                     }
                     let adv = t.phases[i].advance_ms;
                     t.phases[i].advance_ms = 0;
-                    t.phases.insert(i, Phase { advance_ms: adv, tasks: vec![vec![op]] });
+                    t.phases.insert(i, Phase { advance_ms: adv, tasks: vec![vec![op]], fail_stmt: None });
                     c.push(t);
                 }
             }
@@ -1041,6 +1090,16 @@ impl Sim for StoreSim {
                 let mut t = s.clone();
                 t.phases[i].advance_ms = 0;
                 c.push(t);
+            }
+            if let Some((at, code)) = s.phases[i].fail_stmt {
+                let mut t = s.clone();
+                t.phases[i].fail_stmt = None;
+                c.push(t);
+                if at > 0 {
+                    let mut t = s.clone();
+                    t.phases[i].fail_stmt = Some((at - 1, code));
+                    c.push(t);
+                }
             }
         }
         c
